@@ -105,3 +105,18 @@ void h_softclip_sign(void)
    __CPROVER_assert(!(in[k] > 0 && x[k] < 0) && !(in[k] < 0 && x[k] > 0), "soft clipping never flips a sample's sign");
    CANARY("after sign check");
 }
+
+/* independence on a concrete witness: channel 1 carries fixed samples that exercise the start-of-frame ramp (starts beyond +1,
+   no zero crossing, peak at index 2), channel 0 is arbitrary inside [-1,1]; the interleaved result for channel 1 must equal the
+   result of running the real function on channel 1 alone, bit for bit, whatever channel 0 contains. */
+void h_softclip_indep_witness(void)
+{
+   float x[8], y[4] = { 1.2f, 1.4f, 1.9f, 0.3f }, mem[2] = { 0.f, 0.f }, m1 = 0.f; int i, k;
+   for (i = 0; i < 4; i++) { x[2 * i] = nondet_float(); __CPROVER_assume(x[2 * i] >= -1.f && x[2 * i] <= 1.f); CANARY_SET(x[2 * i], 0.5f); x[2 * i + 1] = y[i]; }
+   opus_pcm_soft_clip(x, 4, 2, mem);
+   opus_pcm_soft_clip(y, 4, 1, &m1);
+   k = nondet_int(); __CPROVER_assume(0 <= k && k < 4);
+   __CPROVER_assert(BITS(x[2 * k + 1]) == BITS(y[k]), "a clipped channel (ramp at the frame start) comes out as when it is processed alone, whatever the other channel holds");
+   __CPROVER_assert(BITS(mem[1]) == BITS(m1), "and leaves the same memory");
+   CANARY("after witness");
+}
